@@ -2,9 +2,9 @@
 // labels: valid.recon.* valid.insert_entry.* valid.sig.* valid.empty.* recon.gate.*
 // tier: quick
 // bound: one receiving replica (fresh memory store per message), one reconciliation message carrying every sequence of up to 3 entries (thorough
-// tier: 4) over 10 entry kinds {valid record, valid deletion marker, valid just below the future bound, content tampered after signing, signatures
+// tier: 4) over 11 entry kinds {valid record, valid deletion marker, valid just below the future bound, content tampered after signing, signatures
 // of another entry, author signature by another author, validly signed for another namespace, 11 minutes in the future, empty hash with non-zero
-// length, non-empty hash with zero length}, as one range-item part and split into two parts at every position; the replica must store, count as
+// length, non-empty hash with zero length, identifier of another document signed with the receiving document's namespace key}, as one range-item part and split into two parts at every position; the replica must store, count as
 // head, and announce exactly the valid ones, in both parts, at every position; an invalid twin of a valid entry (same key, timestamp and hash) before or after it is never stored. The same entries through the single remote insert get the same verdict,
 // and through the store actor (SyncHandle::insert_remote, the gossip path) only the valid ones are counted in the inserted-entries metrics.
 #[cfg(test)]
@@ -13,8 +13,8 @@ mod verif_rp_c03_recon {
     use crate::ranger::{Message, MessagePart, Range, RangeItem};
     use crate::store::{Query, Store};
 
-    const KINDS: usize = 10;
-    const NAMES: [&str; KINDS] = ["valid", "valid-marker", "valid-near-bound", "tampered", "stolen-signature", "foreign-author-signature", "foreign-namespace", "future", "empty-hash-nonzero-len", "nonempty-hash-zero-len"];
+    const KINDS: usize = 11;
+    const NAMES: [&str; KINDS] = ["valid", "valid-marker", "valid-near-bound", "tampered", "stolen-signature", "foreign-author-signature", "foreign-namespace", "future", "empty-hash-nonzero-len", "nonempty-hash-zero-len", "foreign-id-signed-with-our-namespace-key"];
     fn is_valid(kind: usize) -> bool { kind < 3 }
 
     struct Ctx { ns: NamespaceSecret, ns2: NamespaceSecret, author: Author, other: Author, now: u64 }
@@ -47,6 +47,11 @@ mod verif_rp_c03_recon {
             7 => SignedEntry::from_parts(&ctx.ns, &ctx.author, &key, rec(h, 3, ctx.now + MAX_TIMESTAMP_FUTURE_SHIFT + 60_000_000)),
             8 => SignedEntry::from_parts(&ctx.ns, &ctx.author, &key, rec(Hash::EMPTY, 5, ctx.now)),
             9 => SignedEntry::from_parts(&ctx.ns, &ctx.author, &key, rec(h, 0, ctx.now)),
+            10 => {
+                // the identifier names another document, the namespace signature is made with OUR namespace secret
+                let entry = Entry::new(RecordIdentifier::new(ctx.ns2.id(), ctx.author.id(), &key), rec(h, 3, ctx.now));
+                SignedEntry::from_entry(entry, &ctx.ns, &ctx.author)
+            }
             _ => unreachable!(),
         }
     }
